@@ -15,7 +15,11 @@ BOUNDS = {"quick": "all four classes: small family over {0,1,2} (formed / broken
 OUTSIDE = "attributes other than element and reaction role (not part of the property); graphs larger than the bounds"
 ASSUMPTIONS = ["json is a C extension: graphs are concrete when serialised (engine A-sel)"]
 
-IDMAPS = [None, {0: -7, 1: 0, 2: 1 << 40, 3: 5, 4: 11, 5: -1, 6: 3, 7: 9}]
+IDMAPS = [None, {0: -7, 1: 0, 2: 1 << 40, 3: 5, 4: 11, 5: -1, 6: 3, 7: 9},
+          # identifier sets that differ in one identifier only, chosen so that the two identifiers have the same CPython hash (-1 / -2, 0 / 2^61-1)
+          {0: -1, 1: 3, 2: 4, 3: 6, 4: 8, 5: 10, 6: 12, 7: 14}, {0: -2, 1: 3, 2: 4, 3: 6, 4: 8, 5: 10, 6: 12, 7: 14},
+          {0: 3, 1: 0, 2: 4, 3: 6, 4: 8, 5: 10, 6: 12, 7: 14}, {0: 3, 1: (1 << 61) - 1, 2: 4, 3: 6, 4: 8, 5: 10, 6: 12, 7: 14}]
+NMAPS = {"quick": 4, "thorough": 6}
 
 
 def _strip(s):
@@ -26,8 +30,8 @@ def _strip(s):
     return t
 
 
-def _check(spec):
-    for idmap in IDMAPS:
+def _check(spec, nmaps=4):
+    for idmap in IDMAPS[:nmaps]:
         sp = spec if idmap is None else tmpl.rename(spec, idmap)
         sp = dict(sp)
         sp["atoms"] = [(a, el, {}) for a, el, _ in sp["atoms"]]
@@ -72,6 +76,18 @@ def _roundtrip(sp, changes_first):
     c = gl.coherent(h)
     if c:
         return f"deserialised graph incoherent: {c}"
+    # the loaded graph is edited, then the same text is loaded again: still the original
+    try:
+        fresh_id = max([a for a in h.atoms if isinstance(a, int)] + [0]) + 3
+        h.add_atom(fresh_id, "He")
+        for a in list(h.atoms)[:1]:
+            h.set_atom_attribute(a, "atom_type", "Ne")
+        h2 = JSONHandler.json_deserialize(txt)
+    except Exception as e:
+        return f"editing the loaded graph / loading the text again raised {type(e).__name__}: {e}"
+    d = gl.diff(_strip(gl.snap(h2)), _strip(s0))
+    if d:
+        return f"second load of the same JSON text (after the first loaded graph was edited) differs from the original: {d}"
     return None
 
 
